@@ -18,20 +18,50 @@ _MOLS = {}
 _NAMES = {}
 
 
-def get_mol(tag, n, bonds, variant=False):
-    """cached Molecule of the species (tag, n, bonds).  variant=True: a SEPARATELY LOADED molecule of the same species
-    (same names and indices, so it is == to the first one) whose topology file lists the bonds in reverse order: its
-    AtomTop.bonds sets are built by a different insertion history."""
-    spec_key = (tag, n, tuple(sorted((min(a, b), max(a, b)) for a, b in bonds)))
+def get_mol(tag, n, bonds, variant=False, resids=None):
+    """cached Molecule of the species (tag, n, bonds, residue numbers).  resids: residue number of every atom
+    (contiguous blocks; default: one residue, number 1).  variant=True: a SEPARATELY LOADED molecule of the same species
+    (same names, indices and residues, so it is == to the first one) whose topology file lists the bonds in reverse order:
+    its AtomTop.bonds sets are built by a different insertion history."""
+    resids = tuple(int(r) for r in resids) if resids is not None else (1,) * n
+    spec_key = (tag, n, tuple(sorted((min(a, b), max(a, b)) for a, b in bonds)), resids)
     key = spec_key + (bool(variant),)
     if key not in _MOLS:
         name = _NAMES.setdefault(spec_key, "%s%d" % (tag, len(_NAMES)))
-        atoms = [(an, name[:5], 1) for an in molgen.atom_names(n, prefix=tag)]
+        atoms = [(an, name[:5], rid) for an, rid in zip(molgen.atom_names(n, prefix=tag), resids)]
         blist = list(spec_key[2])
         if variant:
             blist = [(b, a) for a, b in reversed(blist)]
-        _MOLS[key] = molgen.make_molecule(name[:5], atoms, np.zeros((n, 3)) + np.arange(n)[:, None] * 0.1, blist)
+        pos0 = np.zeros((n, 3)) + np.arange(n)[:, None] * 0.1
+        if len(set(resids)) == 1:
+            _MOLS[key] = molgen.make_molecule(name[:5], atoms, pos0, blist)
+        else:
+            _MOLS[key] = build_multi_residue(name[:5], atoms, pos0, blist)
     return _MOLS[key]
+
+
+def build_multi_residue(name, atoms, positions, bonds):
+    """a Molecule with several residues, assembled from the public classes (MoleculeTop from a written .itp, one Residue
+    of AtomGro per residue number)"""
+    from gaddlemaps.components import AtomGro, Molecule, MoleculeTop, Residue
+    itp = molgen.write_itp(molgen.fresh_path("itp", name), name, atoms, bonds)
+    mtop = MoleculeTop(itp)
+    groups = []
+    for i, ((an, rn, rid), pos) in enumerate(zip(atoms, positions)):
+        at = AtomGro([rid, rn, an, i + 1] + [float(x) for x in pos])
+        if groups and groups[-1][0] == rid:
+            groups[-1][1].append(at)
+        else:
+            groups.append((rid, [at]))
+    return Molecule(mtop, [Residue(g) for _, g in groups])
+
+
+def ref_mol(spec, variant=False):
+    return get_mol("R", spec["n_ref"], spec["bonds"], variant=variant, resids=spec.get("ref_res"))
+
+
+def tgt_mol(spec):
+    return get_mol("T", len(spec["tgt"]), chain_bonds(len(spec["tgt"])), resids=spec.get("tgt_res"))
 
 
 def chain_bonds(n):
@@ -80,8 +110,8 @@ def run_sequence(spec, steps):
     (conformation actually passed), out (positions read right after the call), out_end (positions of the same returned
     Molecule re-read at the END of the sequence), da)])."""
     from gaddlemaps import ExchangeMap
-    ref = get_mol("R", spec["n_ref"], spec["bonds"])
-    tgt = get_mol("T", len(spec["tgt"]), chain_bonds(len(spec["tgt"])))
+    ref = ref_mol(spec)
+    tgt = tgt_mol(spec)
     ref.atoms_positions = np.array(spec["ref"], dtype=float)
     tgt.atoms_positions = np.array(spec["tgt"], dtype=float)
     bondsets = [list(a.bonds) for a in ref]
@@ -111,7 +141,7 @@ def run_sequence(spec, steps):
                 arg = ref.deep_copy()
                 arg.atoms_positions = np.array(st["pos"], dtype=float)
             elif st["how"] == "separate":
-                arg = get_mol("R", spec["n_ref"], spec["bonds"], variant=True)
+                arg = ref_mol(spec, variant=True)
                 arg.atoms_positions = np.array(st["pos"], dtype=float)
             else:
                 if st["how"] == "inplace":
@@ -493,12 +523,33 @@ def neartie_targets(rs, ref, anchors, m):
 
 
 def gen_scale(rs):
-    k = rs.randint(5)
+    """'all scale factors': 1 and 0.5 over-represented, uniform in (0.02, 2], and one in eight a boundary / unusual value:
+    exactly zero (the int 0 and the float 0.0: every mapped atom on its anchor), very small, negative, 2"""
+    k = rs.randint(8)
     if k == 0:
         return 1.0
     if k == 1:
         return 0.5
+    if k == 2:
+        j = rs.randint(9)
+        return [0, 0.0, 0, 0.0, 10 ** rs.uniform(-12, -3), 1e-6, -0.5, -float(rs.uniform(0.02, 2.0)), 2.0][j]
     return float(rs.uniform(0.02, 2.0))
+
+
+def assign_residues(rs, n_ref, n_tgt):
+    """k >= 2 residues numbered 1..k in BOTH molecules (overlapping numbers; equal count, as ExchangeMap.__call__ copies
+    the residue numbers of the argument onto the result), contiguous blocks with random cut points"""
+    k = int(rs.randint(2, min(n_ref, n_tgt, 4) + 1))
+
+    def blocks(n):
+        cuts = sorted(rs.permutation(np.arange(1, n))[:k - 1])
+        out, r = [], 1
+        for i in range(n):
+            if r <= len(cuts) and i >= cuts[r - 1]:
+                r += 1
+            out.append(r)
+        return out
+    return blocks(n_ref), blocks(n_tgt)
 
 
 GEOMS_GENERIC = ["generic", "generic", "generic", "partial", "near", "collinear_decimal", "nearlinear", "neartie",
@@ -516,8 +567,16 @@ def gen_spec(rs, geom, n=None):
             k = max(1, len(tgt) // 2)
             tgt = np.concatenate([neartie_targets(rs, ref, anchors, k), tgt[k:]])
         s = float(rs.choice([0.25, 0.5, 0.9, 2.0]))
-    return {"n_ref": n, "graph": gk, "geom": geom, "bonds": [list(b) for b in bonds], "ref": ref.tolist(),
+    spec = {"n_ref": n, "graph": gk, "geom": geom, "bonds": [list(b) for b in bonds], "ref": ref.tolist(),
             "tgt": np.array(tgt).tolist(), "s": s}
+    if len(tgt) >= 2 and rs.randint(3) == 0:
+        # multi-residue reference AND target with the same residue numbers; the target atoms are placed near random
+        # reference atoms, so many of them are closest to an anchor of another residue number
+        spec["ref_res"], spec["tgt_res"] = assign_residues(rs, n, len(tgt))
+        spec["residues"] = max(spec["ref_res"])
+        if spec["s"] == 1.0 and geom != "neartie":
+            spec["s"] = float(rs.uniform(0.02, 2.0))
+    return spec
 
 
 def gen_small_spec(rs, n):
@@ -607,6 +666,8 @@ def run_K(ctx, items, oracle_on_disagreement):
     K["map_objects"] = len(items)
     K["input_distribution"] = hist
     K["call_kind_histogram (position in the sequence:how)"] = hows
+    K["residues_histogram"] = _count([it[0].get("residues", 1) for it in items])
+    K["scale_classes"] = _count([scale_class(it[0]["s"]) for it in items])
     K["n_ref_histogram"] = _hist([it[0]["n_ref"] for it in items])
     K["n_tgt_histogram"] = _hist([len(it[0]["tgt"]) for it in items], width=10)
     K["log"] = log
@@ -622,6 +683,23 @@ def run_K(ctx, items, oracle_on_disagreement):
         if bad:
             ctx.violation("exchange map: " + "; ".join(bad), d, key="emap")
     return dis
+
+
+def scale_class(sc):
+    if sc == 0:
+        return "zero (int)" if isinstance(sc, int) else "zero (float)"
+    if sc < 0:
+        return "negative"
+    if sc < 1e-2:
+        return "tiny"
+    return "one" if sc == 1 else "(0.01,2]"
+
+
+def _count(vals):
+    h = {}
+    for v in vals:
+        h[str(v)] = h.get(str(v), 0) + 1
+    return h
 
 
 def _hist(vals, width=5):
